@@ -23,7 +23,11 @@ pub mod simfs {
         pub name_len: usize,
         /// logical length
         pub len: u64,
+        /// stored bytes [0, data.len())
         pub data: Vec<u8>,
+        /// second stored extent [base1, base1 + data1.len()) (the log file's data area starts at 4096)
+        pub base1: usize,
+        pub data1: Vec<u8>,
     }
     pub struct Handle {
         pub used: bool,
@@ -32,6 +36,8 @@ pub mod simfs {
     }
     pub struct Fs {
         pub cap: usize,
+        pub base1: usize,
+        pub cap1: usize,
         pub slots: Vec<Slot>,
         pub handles: Vec<Handle>,
         pub pos: Vec<u64>,
@@ -48,6 +54,8 @@ pub mod simfs {
             if FS.is_none() {
                 FS = Some(Fs {
                     cap: 64,
+                    base1: 0,
+                    cap1: 0,
                     slots: Vec::new(),
                     handles: Vec::new(),
                     pos: Vec::new(),
@@ -67,6 +75,24 @@ pub mod simfs {
             std::mem::forget(old);
         }
         fs().cap = cap;
+    }
+
+    /// like reset, with a second stored extent of cap1 bytes starting at base1 (base1 >= cap)
+    pub fn reset2(cap: usize, base1: usize, cap1: usize) {
+        reset(cap);
+        fs().base1 = base1;
+        fs().cap1 = cap1;
+    }
+
+    /// byte at an absolute offset (unstored offsets read as zero)
+    pub fn slot_byte(s: &Slot, off: usize) -> u8 {
+        if off < s.data.len() {
+            s.data[off]
+        } else if off >= s.base1 && off - s.base1 < s.data1.len() {
+            s.data1[off - s.base1]
+        } else {
+            0
+        }
     }
 
     pub fn find(path: &[u8]) -> Option<usize> {
@@ -102,13 +128,15 @@ pub mod simfs {
             name[j] = path[j];
             j += 1;
         }
-        let cap = fs.cap;
+        let (cap, base1, cap1) = (fs.cap, fs.base1, fs.cap1);
         fs.slots.push(Slot {
             used: true,
             name,
             name_len: path.len(),
             len: 0,
             data: vec![0u8; cap],
+            base1,
+            data1: vec![0u8; cap1],
         });
         fs.slots.len() - 1
     }
@@ -118,12 +146,7 @@ pub mod simfs {
     }
     pub fn byte_at(path: &str, off: usize) -> u8 {
         let i = find(path.as_bytes()).unwrap();
-        let s = &fs().slots[i];
-        if off < s.data.len() {
-            s.data[off]
-        } else {
-            0
-        }
+        slot_byte(&fs().slots[i], off)
     }
     pub fn set_byte(path: &str, off: usize, v: u8) {
         let i = match find(path.as_bytes()) {
@@ -131,8 +154,12 @@ pub mod simfs {
             None => create(path.as_bytes()),
         };
         let s = &mut fs().slots[i];
-        assert!(off < s.data.len(), "simfs: set_byte beyond CAP");
-        s.data[off] = v;
+        if off < s.data.len() {
+            s.data[off] = v;
+        } else {
+            assert!(off >= s.base1 && off - s.base1 < s.data1.len(), "simfs: set_byte beyond CAP");
+            s.data1[off - s.base1] = v;
+        }
         if s.len < off as u64 + 1 {
             s.len = off as u64 + 1;
         }
@@ -216,10 +243,12 @@ pub(crate) fn sim_open(path: &Path, flags: SimFlags) -> io::Result<File> {
                 return Err(io::Error::from(io::ErrorKind::AlreadyExists));
             }
             if flags.truncate {
-                let cap = fs().cap;
+                let (cap, cap1) = (fs().cap, fs().cap1);
                 fs().slots[i].len = 0;
                 let old = std::mem::replace(&mut fs().slots[i].data, vec![0u8; cap]);
                 std::mem::forget(old);
+                let old1 = std::mem::replace(&mut fs().slots[i].data1, vec![0u8; cap1]);
+                std::mem::forget(old1);
             }
             i
         }
@@ -293,6 +322,14 @@ impl File {
             if from < to {
                 s.data[from..to].fill(0);
             }
+            let mut k = 0;
+            while k < s.data1.len() {
+                let off = (s.base1 + k) as u64;
+                if off >= size && off < s.len {
+                    s.data1[k] = 0;
+                }
+                k += 1;
+            }
         }
         s.len = size;
         Ok(())
@@ -341,15 +378,20 @@ impl AsyncRead for File {
         let want = dst.remaining() as u64;
         let n = if want < avail { want } else { avail } as usize;
         let out = dst.initialize_unfilled_to(n);
-        let cap = s.data.len();
         let p = pos as usize;
-        // stored part by slice copy (no per-byte loop for the solver to unwind), rest reads as zero
-        let stored = if p >= cap { 0 } else if p + n <= cap { n } else { cap - p };
-        if stored > 0 {
-            out[..stored].copy_from_slice(&s.data[p..p + stored]);
+        // zero fill, then overlay the stored extents by slice copies (no per-byte loop over the caller's 1024 / 4096
+        // byte buffers for the solver to unwind)
+        out[..n].fill(0);
+        let cap = s.data.len();
+        if p < cap {
+            let m = if p + n <= cap { n } else { cap - p };
+            out[..m].copy_from_slice(&s.data[p..p + m]);
         }
-        if stored < n {
-            out[stored..n].fill(0);
+        let (b1, c1) = (s.base1, s.data1.len());
+        if c1 > 0 && p < b1 + c1 && p + n > b1 {
+            let lo = if p > b1 { p } else { b1 };
+            let hi = if p + n < b1 + c1 { p + n } else { b1 + c1 };
+            out[lo - p..hi - p].copy_from_slice(&s.data1[lo - b1..hi - b1]);
         }
         dst.advance(n);
         fs.pos[h.pos] = pos + n as u64;
@@ -395,9 +437,25 @@ impl AsyncWrite for File {
             return Poll::Ready(Ok(n));
         }
         let s = &mut fs.slots[slot];
-        assert!(pos as usize + n <= s.data.len(), "simfs: write beyond CAP");
         let p = pos as usize;
-        s.data[p..p + n].copy_from_slice(src);
+        if p + n <= s.data.len() {
+            s.data[p..p + n].copy_from_slice(src);
+        } else if p >= s.base1 && p + n <= s.base1 + s.data1.len() {
+            let q = p - s.base1;
+            s.data1[q..q + n].copy_from_slice(src);
+        } else if p < s.data.len() {
+            // a write that starts inside the first extent and runs past it (the 256-byte header block): the part
+            // beyond the stored bytes must be zeros, which is what unstored offsets read as
+            let m = s.data.len() - p;
+            s.data[p..].copy_from_slice(&src[..m]);
+            let mut k = m;
+            while k < n {
+                assert!(src[k] == 0, "simfs: non-zero byte written outside the stored extents");
+                k += 1;
+            }
+        } else {
+            panic!("simfs: write outside the stored extents");
+        }
         if s.len < pos + n as u64 {
             s.len = pos + n as u64;
         }
